@@ -1,7 +1,9 @@
 package c06
 
 import (
+	"bytes"
 	"context"
+	"errors"
 	"encoding/xml"
 	"fmt"
 	"strconv"
@@ -23,8 +25,12 @@ import (
 
 type rcall struct {
 	k    int
-	scen string // receipt late race never dup unknown
+	scen string // receipt late race never dup unknown heldfail heldcancel heldok
 	ctx  *obsCtx
+	// held*: the call is started at its turn; the transport holds the write of
+	// its message (the peer sees it) until release is sent
+	held    chan struct{}
+	release chan error
 	err  error
 	done chan struct{}
 	pan  string
@@ -64,7 +70,7 @@ func TestC06Receipts(t *testing.T) {
 		rc := rcase{}
 		races := 0
 		for k := 0; k < n; k++ {
-			c := &rcall{k: k, scen: rapid.SampledFrom([]string{"receipt", "receipt", "late", "race", "race", "never", "dup", "unknown"}).Draw(rt, "scen")}
+			c := &rcall{k: k, scen: rapid.SampledFrom([]string{"receipt", "receipt", "late", "race", "race", "never", "dup", "unknown", "heldfail", "heldcancel", "heldok"}).Draw(rt, "scen")}
 			if c.scen == "race" {
 				races++
 			}
@@ -102,16 +108,40 @@ func checkReceipts(t interface {
 	if err != nil {
 		t.Fatalf("harness: %v", err)
 	}
-	for _, c := range rc.calls {
-		c.ctx = newObsCtx()
-		c.done = make(chan struct{})
-		go func(c *rcall) {
+	start := func(c *rcall) {
+		go func() {
 			defer close(c.done)
 			c.pan = ev.Guard(func() {
 				c.err = h.SendMessageElement(c.ctx, sv.Session, xt.El(ns, "body", nil, xt.Tx("hi")).Reader(),
 					stanza.Message{ID: c.id(), Type: stanza.ChatMessage})
 			})
-		}(c)
+		}()
+	}
+	// the transport holds the write that carries the message of a held call:
+	// the peer sees the message (and acknowledges it) while the call is still
+	// inside its transmit step
+	sv.Conn.HoldAfterWrite = func(n int, p []byte) error {
+		for _, c := range rc.calls {
+			if c.held != nil && bytes.Contains(p, []byte(`id="`+c.id()+`"`)) {
+				select {
+				case <-c.held:
+				default:
+					close(c.held)
+					return <-c.release
+				}
+			}
+		}
+		return nil
+	}
+	for _, c := range rc.calls {
+		c.ctx = newObsCtx()
+		c.done = make(chan struct{})
+		if strings.HasPrefix(c.scen, "held") {
+			c.held = make(chan struct{})
+			c.release = make(chan error, 1)
+			continue // started at its turn
+		}
+		start(c)
 	}
 	unhandledIDs := func() []string {
 		umu.Lock()
@@ -182,6 +212,12 @@ func checkReceipts(t interface {
 	cleanup := func() {
 		for _, c := range rc.calls {
 			c.ctx.cancel()
+			if c.release != nil {
+				select {
+				case c.release <- nil:
+				default:
+				}
+			}
 		}
 		sv.Shutdown(3 * time.Second)
 	}
@@ -197,8 +233,21 @@ func checkReceipts(t interface {
 		}
 		stall("call " + c.id() + " did not return after its receipt")
 	}
+	poisoned := false
+turns:
 	for _, k := range rc.ord {
 		c := rc.calls[k]
+		if c.held != nil {
+			start(c)
+			select {
+			case <-c.held:
+			case <-time.After(5 * time.Second):
+				c.release <- nil
+				stall("message " + c.id() + " was never written")
+				cleanup()
+				return
+			}
+		}
 		if !onWire(c) {
 			stall("message " + c.id() + " never reached the wire")
 			cleanup()
@@ -245,6 +294,66 @@ func checkReceipts(t interface {
 				cleanup()
 				return
 			}
+		case "heldfail", "heldcancel", "heldok":
+			// acknowledged twice while the call is still transmitting; then the
+			// transmit step fails / the context ends / all is well
+			umu.Lock()
+			before := unhandled[c.id()]
+			umu.Unlock()
+			receipt(c.id())
+			receipt(c.id())
+			// until the serve loop has dealt with both (it waits for more input), or
+			// is stuck on them
+			for i := 0; i < 40; i++ {
+				if sv.Conn.PendingInput() == 0 && wire.ServeIdle() {
+					break
+				}
+				time.Sleep(10 * time.Millisecond)
+			}
+			_ = before
+			switch c.scen {
+			case "heldfail":
+				c.release <- errors.New("verif: the transport reports a failure for this write")
+			case "heldcancel":
+				c.ctx.cancel()
+				c.release <- nil
+			default:
+				c.release <- nil
+			}
+			if !waitReturn(c) {
+				stall("call " + c.id() + " did not return (acknowledged while still transmitting, " + c.scen + ")")
+				cleanup()
+				return
+			}
+			// the serve loop must have got past the two acknowledgements, whatever
+			// became of the call (no reply is needed for this to be visible)
+			alive := false
+			for i := 0; i < 300 && !alive; i++ {
+				select {
+				case <-sv.Done():
+					alive = true
+				default:
+					alive = sv.Conn.PendingInput() == 0 && wire.ServeIdle()
+				}
+				if !alive {
+					time.Sleep(10 * time.Millisecond)
+				}
+			}
+			if !alive {
+				if b := wire.BlockedMatching("handleInputStream"); len(b) > 0 {
+					time.Sleep(300 * time.Millisecond)
+					if b2 := wire.BlockedMatching("handleInputStream"); len(b2) > 0 {
+						fail("message %s was acknowledged twice while its call was still transmitting (%s); the call has returned (%v) but the serve loop is parked inside the library:\n%s", c.id(), c.scen, c.err, strings.Join(b2, "\n\n"))
+					}
+				}
+				ev.Class("inconclusive-timeout")
+			}
+			if c.scen == "heldfail" {
+				// the failed write may have left the sending direction unusable:
+				// nothing after it can be judged
+				poisoned = true
+				break turns
+			}
 		case "never":
 		}
 		if !sync() {
@@ -252,6 +361,13 @@ func checkReceipts(t interface {
 			cleanup()
 			return
 		}
+	}
+	if poisoned {
+		cleanup()
+		if p := sv.Panic(); p != "" {
+			fail("%s", p)
+		}
+		return
 	}
 	for _, c := range rc.calls {
 		if c.scen == "never" {
@@ -285,9 +401,13 @@ func checkReceipts(t interface {
 			if c.err != context.Canceled {
 				fail("call %s must end with its context's error, got %v", c.id(), c.err)
 			}
-		case "race":
+		case "race", "heldcancel":
 			if c.err != nil && c.err != context.Canceled {
 				fail("call %s (racing) returned %v", c.id(), c.err)
+			}
+		case "heldok":
+			if c.err != nil {
+				fail("call %s was acknowledged while it was still transmitting, the transmission succeeded, but it returned %v", c.id(), c.err)
 			}
 		}
 	}
